@@ -42,10 +42,21 @@ class Router:
     def queues(self) -> frozenset[str]:
         return frozenset(self.topics_by_queue.keys())
 
+    def _set_actor(self, actor: ActorData) -> None:
+        # a name re-registered on another queue must not stay among the topics of its former queue
+        previous = self.actors.get(actor.name)
+        if previous is not None and previous.queue != actor.queue:
+            former_topics = self.topics_by_queue.get(previous.queue)
+            if former_topics is not None:
+                former_topics.discard(actor.name)
+                if not former_topics:
+                    del self.topics_by_queue[previous.queue]
+        self.actors[actor.name] = actor
+        self.topics_by_queue[actor.queue].add(actor.name)
+
     def include_router(self, router: Router) -> None:
-        self.actors.update(router.actors)
-        for queue_name, topics in router.topics_by_queue.items():
-            self.topics_by_queue[queue_name].update(topics)
+        for actor in router.actors.values():
+            self._set_actor(actor)
 
     @overload
     def actor(
@@ -136,6 +147,5 @@ class Router:
                 "followed by letters, digits, dashes or underscores.",
             )
 
-        self.actors[a.name] = a
-        self.topics_by_queue[a.queue].add(a.name)
+        self._set_actor(a)
         return fn
